@@ -76,6 +76,13 @@ type Specs struct {
 	Sigs   map[string]*SmtSig   // prelude function signatures
 	Prelude string
 	Files  []string
+	Guards []Guard
+}
+
+// Guard: field (path prefix) of objects of type Root may only be read with the lock at path Lock of
+// the same object held (read or write) and written with it write-held
+type Guard struct {
+	Root, Field, Lock, Src string
 }
 
 type SpecDef struct {
@@ -158,6 +165,17 @@ func (S *Specs) loadSpecFile(path string, repoFile bool, pkg string) error {
 				return fmt.Errorf("%s: duplicate contract for %s (first at %s)", src, key, old.Src)
 			}
 			S.C[key] = cur
+			last = nil
+		case kw == "guarded":
+			// guarded <type> <.field> by <.lockfield>
+			if len(fields) != 5 || fields[3] != "by" {
+				return fmt.Errorf("%s: expected 'guarded <type> <.field> by <.lock>'", src)
+			}
+			root := fields[1]
+			if !strings.Contains(root, ".") {
+				root = pkg + "." + root
+			}
+			S.Guards = append(S.Guards, Guard{Root: root, Field: fields[2], Lock: fields[4], Src: src})
 			last = nil
 		case kw == "ghost":
 			// ghost name : Sort
